@@ -55,6 +55,7 @@ def plan(tier, seed):
                        'n': 24 if tier == 'quick' else 250, 'seed': seed * 1000 + 70 + i})
     shards.append({'name': 'idkey', 'kind': 'idkey', 'n': 30 if tier == 'quick' else 300, 'seed': seed * 1000 + 75})
     shards.append({'name': 'u64', 'kind': 'u64', 'n': 40 if tier == 'quick' else 400, 'seed': seed * 1000 + 74})
+    shards.append({'name': 'unbalanced', 'kind': 'unbalanced', 'n': 150 if tier == 'quick' else 2000, 'seed': seed * 1000 + 76})
     shards.append({'name': 'ambig', 'kind': 'ambig', 'n': 60 if tier == 'quick' else 800, 'seed': seed * 1000 + 73})
     shards.append({'name': 'large', 'kind': 'large', 'sizes': [1100, 2300] if tier == 'quick' else
                    [600, 1100, 2300, 4100, 9000]})
@@ -82,9 +83,34 @@ def near_miss_call(measure, t, N, op):
             'threshold': t, 'comp_op': op, 'n_jobs': 1, 'out_sim_score': True}
 
 
+def unbalanced_call(case):
+    """Short records (3-5 tokens) against long ones (50-90 tokens) over one small universe at thresholds
+    low enough for a size ratio beyond 16: the verification step sees very unequal token lists, with
+    shared and unshared tokens of the short record interleaved in the global order."""
+    rng = random.Random(case['seed'])
+    uni = ['u%03d' % i for i in range(rng.choice([100, 140]))]
+    api = case['api']
+    t = {'jaccard_join': [0.01, 0.02, 0.04, 0.055], 'cosine_join': [0.05, 0.1, 0.2, 0.24],
+         'dice_join': [0.02, 0.05, 0.1]}[api]
+
+    def rec_(n):
+        return ' '.join(rng.sample(uni, n))
+    lv = [rec_(rng.randint(3, 5)) for _ in range(rng.randint(3, 6))] + [rec_(rng.randint(50, 90))]
+    rv = [rec_(rng.randint(50, 90)) for _ in range(rng.randint(3, 6))] + [rec_(rng.randint(3, 5))]
+    rng.shuffle(lv)
+    rng.shuffle(rv)
+    L = T.table_spec(['lid', 'lattr'], [[i + 1, v] for i, v in enumerate(lv)], dtypes={'lattr': 'object'})
+    R = T.table_spec(['rid', 'rattr'], [[10 + i, v] for i, v in enumerate(rv)], dtypes={'rattr': 'object'})
+    return {'api': api, 'ltable': L, 'rtable': R, 'l_key': 'lid', 'r_key': 'rid', 'l_attr': 'lattr',
+            'r_attr': 'rattr', 'tok': {'kind': 'ws', 'return_set': True}, 'threshold': rng.choice(t),
+            'comp_op': rng.choice(['>=', '>=', '>']), 'out_sim_score': True, 'n_jobs': rng.choice([1, 1, 2])}
+
+
 def materialise(case):
     if case['gen'] == 'nm':
         return near_miss_call(case['measure'], case['threshold'], case['N'], case['comp_op'])
+    if case['gen'] == 'unbalanced':
+        return unbalanced_call(case)
     return c01.materialise(case)
 
 
@@ -262,6 +288,15 @@ def run_shard(shard, rec):
             rec.case(sig=('u64', case['seed']), nontrivial=st > 0)
         rec.sample({'workload': 'U64', 'note': 'unsigned 64-bit keys at and beyond 2**63 (hash ids), n_jobs 1/2/3, '
                     'allow_missing on/off'}, limit=1)
+    elif kind == 'unbalanced':
+        for i in range(shard['n']):
+            case = {'gen': 'unbalanced', 'seed': shard['seed'] * 100000 + i,
+                    'api': ('jaccard_join', 'cosine_join', 'dice_join')[i % 3]}
+            st = run_case(case, rec, ssj)
+            rec.case(sig=('unbalanced', case['seed']), nontrivial=bool(st and st.get('scores_checked')))
+            rec.count('unbalanced_size_cases')
+        rec.sample({'workload': 'UNBALANCED', 'note': 'records of 3-5 tokens against records of 50-90 tokens '
+                    'at thresholds 0.01-0.24 (size ratio beyond 16)'}, limit=1)
     elif kind == 'ambig':
         for i in range(shard['n']):
             case = {'gen': 'ambig', 'seed': shard['seed'] * 100000 + i}
